@@ -288,7 +288,7 @@ def sart_oracles(ctx, c):
 
 
 def sart_stream(ctx):
-    cases = sart_cases(ctx, ctx.n(260, 4000), 8 if ctx.tier == 'quick' else 12)
+    cases = sart_cases(ctx, ctx.n(800, 12000), 8 if ctx.tier == 'quick' else 12)
     outs = ctx.driver([c['line'] for c in cases])
     for c, o in zip(cases, outs):
         ctx.traces += 1
@@ -354,7 +354,7 @@ def exact_stream(ctx):
     from cherab.tools.inversions import invert_sart, invert_constrained_sart
     rng = ctx.rng
     lines, expect = [], []
-    for it in range(ctx.n(60, 600)):
+    for it in range(ctx.n(150, 1500)):
         W, b, m, n = exact_system(rng)
         relax = rng.choice([1.0, 0.5, 0.25])
         x0 = [rng.randint(0, 8) / 4.0 for _ in range(n)]
@@ -426,7 +426,7 @@ def fixed_point_stream(ctx):
     (unconstrained, relaxation <= 1 where the iteration does not amplify the rounding of b = W x): tolerance 1e-10."""
     from cherab.tools.inversions import invert_sart, invert_constrained_sart
     rng = ctx.rng
-    for it in range(ctx.n(80, 800)):
+    for it in range(ctx.n(200, 2500)):
         m, n = rng.randint(1, 8), rng.randint(1, 8)
         exact = it % 4 != 0
         constrained = exact and rng.random() < 0.5
@@ -533,6 +533,81 @@ def lsq_scale(C, d, x):
     return nc * (nc * float(np.linalg.norm(x)) + float(np.linalg.norm(d))) + 1e-300
 
 
+SIG_NNLS_EXT = 'C11:invert_regularised_nnls:external-solver(scipy.optimize.nnls)-returns-non-KKT-point'
+
+
+def kkt_why(C, d, x, slack_extra=0.0):
+    """None when x satisfies the KKT conditions of min |Cx-d|^2, x >= 0 within tolerance, else the reason"""
+    x = np.asarray(x, float)
+    g = C.T @ (C @ x - d)
+    sc = lsq_scale(C, d, x)
+    slack = 1e-8 * sc + slack_extra
+    if not np.all(x >= 0):
+        return 'x has a negative entry'
+    if np.min(g) < -slack:
+        return 'gradient component %.3g < 0 (scale %.3g): a feasible descent direction exists' % (float(np.min(g)), sc)
+    if np.max(np.abs(g[x > 0]), initial=0.0) > slack:
+        return 'complementarity violated: |g_j| = %.3g on a positive x_j (scale %.3g)' % (float(np.max(np.abs(g[x > 0]))), sc)
+    return None
+
+
+def nnls_oracle(ctx, rng, Wa, ba, alpha, La, st, res, spycall, desc, zclass=None):
+    """S for invert_regularised_nnls on the caller's problem (W, L, alpha, b).  Returns 'compare' when the case should also be
+    compared with the model (K), else None."""
+    m, n = Wa.shape
+    Leff = np.identity(n) if La is None else La
+    C = np.vstack([Wa, alpha * Leff]); d = np.concatenate([ba, np.zeros(n)])
+    vmax = float(d.max())
+    verdict = 'compare'
+    if not vmax > 0:
+        # The minimiser exists (x = 0 when W >= 0 and b <= 0); the wrapper must return one.  The as-is model divides by vmax = 0
+        # here (Props: nnls_norm_degenerate; nnls_wrapper_correct assumes 0 < vmax), so this class is judged by S alone and not
+        # compared with the model — whichever guard a fix introduces, only the KKT oracle below decides.
+        verdict = None
+        ctx.count('nnls:max(b)<=0 (S only)')
+        if st != 'ok' or not np.all(np.isfinite(res[0])):
+            ctx.fail(SIG_NNLS_VMAX,
+                     'invert_regularised_nnls with max(b) = %r <= 0 (%s measurement): %s — the wrapper divides the system by '
+                     'vmax = max([b;0]) = 0 (nnls.py:68-70); the minimiser x = 0 exists and scipy.optimize.nnls returns it when '
+                     'called on the unnormalised system' % (float(np.max(ba)), zclass or 'non-positive',
+                                                            ('raised ' + st + ': ' + str(res)) if st != 'ok' else 'returned non-finite x'),
+                     dict(desc, expected_minimiser=[0.0] * n))
+            return None
+        vmax = 1.0
+    if st != 'ok':
+        ctx.fail('C11:invert_regularised_nnls:raised-%s' % st, 'raised %s: %s' % (st, res), desc)
+        return None
+    x, norm = res
+    x = np.asarray(x, float)
+    # scipy's stopping test is absolute (~1e-14) on the *normalised* system: allow it back in caller's units
+    why = kkt_why(C, d, x, 1e-10 * vmax * vmax)
+    obj = float(np.sum((Wa @ x - ba) ** 2) + alpha ** 2 * np.sum((Leff @ x) ** 2))
+    norm_bad = abs(float(norm) - math.sqrt(obj)) > 1e-9 * (math.sqrt(obj) + float(np.linalg.norm(d)))
+    if (why or norm_bad) and spycall is not None:
+        # is it the wrapper or the external solver?  evaluate the solver's own answer on the system it was handed
+        (A_, b_), _, (xs_, rn_) = spycall
+        A_ = np.asarray(A_, float); b_ = np.asarray(b_, float)
+        ext_why = kkt_why(A_, b_, xs_, 1e-10)
+        ext_norm_bad = abs(float(rn_) - float(np.linalg.norm(A_ @ xs_ - b_))) > 1e-9 * (float(rn_) + float(np.linalg.norm(b_)))
+        if ext_why or ext_norm_bad:
+            import scipy
+            ctx.fail(SIG_NNLS_EXT,
+                     'scipy.optimize.nnls (SciPy %s) returned a point that fails the KKT conditions of the system it was handed (%s; rnorm %r vs '
+                     '|Ax-b| = %r); invert_regularised_nnls passes it on: x = %r is not a minimiser of |Wx-b|^2 + alpha^2|Lx|^2 over x >= 0 '
+                     '(objective %r, reported norm^2 %r)' % (scipy.__version__, ext_why or 'KKT ok', float(rn_), float(np.linalg.norm(A_ @ xs_ - b_)),
+                                                             x.tolist(), obj, float(norm) ** 2),
+                     dict(desc, returned_x=x.tolist(), reported_norm=float(norm)))
+            return verdict
+    if why:
+        ctx.fail('C11:invert_regularised_nnls:kkt-violated', why, dict(desc, returned_x=x.tolist()))
+    if norm_bad:
+        ctx.fail('C11:invert_regularised_nnls:residual-norm-inconsistent',
+                 'reported norm %r but sqrt(|Wx-b|^2 + alpha^2|Lx|^2) = %r' % (float(norm), math.sqrt(obj)), dict(desc, returned_x=x.tolist()))
+    if not why:
+        _perturb_check(ctx, rng, 'invert_regularised_nnls', Wa, ba, alpha, Leff, x, obj, True, desc)
+    return verdict
+
+
 def lsq_stream(ctx):
     import scipy.optimize
     import scipy.linalg
@@ -542,7 +617,7 @@ def lsq_stream(ctx):
     big = 8 if ctx.tier == 'quick' else 12
     real_nnls, real_lstsq, real_pinv = scipy.optimize.nnls, np.linalg.lstsq, scipy.linalg.pinv
     try:
-        for it in range(ctx.n(220, 3500)):
+        for it in range(ctx.n(700, 10000)):
             m, n = rng.randint(1, big), rng.randint(1, big)
             W, wk = gen_matrix(rng, m, n)
             b, bk = gen_b(rng, W, m, n)
@@ -577,56 +652,16 @@ def lsq_stream(ctx):
                 with np.errstate(all='ignore'):
                     st, res = call(invert_regularised_nnls, Wa, ba, alpha, La, **kw)
                 scipy.optimize.nnls = real_nnls
-                vmax = float(d.max())
-                skipK = False
-                if not vmax > 0:
-                    # S: the minimiser exists (x = 0 when W >= 0 and b <= 0); the wrapper must return one.  The as-is model divides by
-                    # vmax = 0 here (Props: nnls_norm_degenerate; nnls_wrapper_correct assumes 0 < vmax), so this class is judged by S
-                    # alone and not compared with the model — whichever guard a fix introduces, only the KKT oracle below decides.
-                    skipK = True
-                    ctx.count('nnls:max(b)<=0 (S only)')
-                    if st != 'ok' or not np.all(np.isfinite(res[0])):
-                        ctx.fail(SIG_NNLS_VMAX,
-                                 'invert_regularised_nnls with max(b) = %r <= 0 (%s measurement): %s — the wrapper divides the system by '
-                                 'vmax = max([b;0]) = 0 (nnls.py:68-70); the minimiser x = 0 exists and scipy.optimize.nnls returns it when '
-                                 'called on the unnormalised system' % (float(max(b)), zclass, ('raised ' + st + ': ' + str(res)) if st != 'ok' else 'returned non-finite x'),
-                                 dict(desc, expected_minimiser=[0.0] * n))
-                        continue
-                    vmax = 1.0
-                if st != 'ok':
-                    ctx.fail('C11:invert_regularised_nnls:raised-%s' % st, 'raised %s: %s' % (st, res), desc)
-                    continue
-                x, norm = res
-                ok_spy = len(spy.calls) == 1
-                if skipK:
-                    pass
-                elif ok_spy:
-                    (A_, b_), kw_, (xs_, rn_) = spy.calls[0]
-                    lines.append('nnls %d %d %s %d %s %s %s %s %s' % (m, n, f2b(alpha), 1 if hasL else 0, fs(flat(W)), fs(b),
-                                                                      (fs(flat(L)) if hasL else ''), fs(xs_.tolist()), f2b(rn_)))
-                    checks.append(('nnls', desc, dict(A=A_, b=b_, x=np.asarray(x), norm=float(norm), xs=xs_, kw=kw_, kw_in=kw, n=n, rows=m + n)))
-                else:
-                    ctx.broke('correspondence', 'C11 stream nnls-spy', dict(what='scipy.optimize.nnls called %d times' % len(spy.calls), input=desc))
-                # S: KKT on the caller's problem
-                x = np.asarray(x, float)
-                g = C.T @ (C @ x - d)
-                sc = lsq_scale(C, d, x)
-                # scipy's stopping test is absolute (~1e-14) on the *normalised* system: allow it back in caller's units
-                slack = 1e-8 * sc + 1e-10 * vmax * vmax
-                why = None
-                if not np.all(x >= 0):
-                    why = 'x has a negative entry'
-                elif np.min(g) < -slack:
-                    why = 'gradient component %.3g < 0 (scale %.3g): a feasible descent direction exists' % (float(np.min(g)), sc)
-                elif np.max(np.abs(g[x > 0]), initial=0.0) > slack:
-                    why = 'complementarity violated: |g_j| = %.3g on a positive x_j (scale %.3g)' % (float(np.max(np.abs(g[x > 0]))), sc)
-                if why:
-                    ctx.fail('C11:invert_regularised_nnls:kkt-violated', why, dict(desc, returned_x=x.tolist(), gradient=g.tolist()))
-                obj = float(np.sum((Wa @ x - ba) ** 2) + alpha ** 2 * np.sum((Leff @ x) ** 2))
-                if abs(float(norm) - math.sqrt(obj)) > 1e-9 * (math.sqrt(obj) + float(np.linalg.norm(d))):
-                    ctx.fail('C11:invert_regularised_nnls:residual-norm-inconsistent',
-                             'reported norm %r but sqrt(|Wx-b|^2 + alpha^2|Lx|^2) = %r' % (float(norm), math.sqrt(obj)), dict(desc, returned_x=x.tolist()))
-                _perturb_check(ctx, rng, 'invert_regularised_nnls', Wa, ba, alpha, Leff, x, obj, True, desc)
+                spycall = spy.calls[0] if len(spy.calls) == 1 else None
+                verdict = nnls_oracle(ctx, rng, Wa, ba, alpha, La, st, res, spycall, desc, zclass)
+                if verdict == 'compare':
+                    if spycall is not None:
+                        (A_, b_), kw_, (xs_, rn_) = spycall
+                        lines.append('nnls %d %d %s %d %s %s %s %s %s' % (m, n, f2b(alpha), 1 if hasL else 0, fs(flat(W)), fs(b),
+                                                                          (fs(flat(L)) if hasL else ''), fs(xs_.tolist()), f2b(rn_)))
+                        checks.append(('nnls', desc, dict(A=A_, b=b_, x=np.asarray(res[0]), norm=float(res[1]), xs=xs_, kw=kw_, kw_in=kw, n=n, rows=m + n)))
+                    else:
+                        ctx.broke('correspondence', 'C11 stream nnls-spy', dict(what='scipy.optimize.nnls called %d times' % len(spy.calls), input=desc))
 
             elif which == 'lstsq':
                 desc = dict(base, func='invert_regularised_lstsq')
@@ -748,7 +783,7 @@ def certificate_stream(ctx):
     """the model's kktResidual / objective against numpy on random data"""
     rng = ctx.rng
     lines, exp = [], []
-    for it in range(ctx.n(40, 400)):
+    for it in range(ctx.n(60, 600)):
         rows, n = rng.randint(1, 8), rng.randint(1, 6)
         C = [[rng.uniform(-2, 2) for _ in range(n)] for _ in range(rows)]
         d = [rng.uniform(-2, 2) for _ in range(rows)]
@@ -813,25 +848,22 @@ def _replay_case(ctx, r, from_corpus=False):
     import cherab.tools.inversions as inv
     fn = r.get('func')
     if fn == 'invert_regularised_nnls':
+        import scipy.optimize
         W = np.array(r['W'], float); b = np.array(r['b'], float)
         L = None if r.get('tikhonov_matrix') is None else np.array(r['tikhonov_matrix'], float)
-        with np.errstate(all='ignore'):
-            st, res = call(inv.invert_regularised_nnls, W, b, r.get('alpha', 0.01), L)
-        ctx.case(key=('replay', fn, json.dumps(r['b'])))
-        n = W.shape[1]
-        Leff = np.identity(n) if L is None else L
-        C = np.vstack([W, r.get('alpha', 0.01) * Leff]); d = np.concatenate([b, np.zeros(n)])
-        if st != 'ok' or not np.all(np.isfinite(res[0])):
-            sig = SIG_NNLS_VMAX if not float(d.max()) > 0 else 'C11:invert_regularised_nnls:raised-%s' % st
-            ctx.fail(sig, 'replay: invert_regularised_nnls(W, b=%r) -> %s %s' % (r['b'], st, res if st != 'ok' else ''), r)
-        else:
-            x = np.asarray(res[0], float)
-            g = C.T @ (C @ x - d)
-            sc = lsq_scale(C, d, x)
-            if not np.all(x >= 0) or np.min(g) < -1e-8 * sc or np.max(np.abs(g[x > 0]), initial=0.0) > 1e-8 * sc:
-                ctx.fail('C11:invert_regularised_nnls:kkt-violated', 'replay: KKT violated', r)
-            elif not from_corpus:
-                ctx.log('replay: property holds on this input now: x = %r, norm = %r' % (x.tolist(), float(res[1])))
+        real = scipy.optimize.nnls
+        spy = Spy(real); scipy.optimize.nnls = spy
+        try:
+            with np.errstate(all='ignore'):
+                st, res = call(inv.invert_regularised_nnls, W, b, r.get('alpha', 0.01), L)
+        finally:
+            scipy.optimize.nnls = real
+        ctx.case(key=('replay', fn, json.dumps(r['W']), json.dumps(r['b'])))
+        nf = len(ctx.failing) + len(ctx.known_hits)
+        nnls_oracle(ctx, ctx.rng, W, b, r.get('alpha', 0.01), L, st, res, spy.calls[0] if len(spy.calls) == 1 else None,
+                    {k: v for k, v in r.items() if k not in ('returned_x', 'reported_norm')})
+        if not from_corpus and nf == len(ctx.failing) + len(ctx.known_hits):
+            ctx.log('replay: the property holds on this input now: %r' % (res,))
     elif fn in ('invert_sart', 'invert_constrained_sart'):
         W = np.array(r['W'], float); b = np.array(r['b'], float)
         x0 = np.array(r['x0'], float)
